@@ -423,8 +423,11 @@ inline void initStripeState(
       stripeEnd = end;
     } else {
       Wide perStripe = totalRange / static_cast<Wide>(numWorkers);
-      Wide endWide = static_cast<Wide>(start) + static_cast<Wide>(i + 1) * perStripe;
-      stripeEnd = alignDownStripe(static_cast<IntegerT>(endWide), state.granularity);
+      // Align the stripe boundary to the granularity *relative to start*: chunks are cut from
+      // start, so aligning to absolute multiples would leave a ragged chunk at the end of every
+      // stripe whenever start itself is not a multiple of the granularity.
+      Wide relEnd = alignDownStripe(static_cast<Wide>(i + 1) * perStripe, state.granularity);
+      stripeEnd = static_cast<IntegerT>(static_cast<Wide>(start) + relEnd);
       if (stripeEnd <= cursor) {
         stripeEnd = cursor;
       }
